@@ -81,3 +81,18 @@ Theorem C01_generated_statements_with_declarations_accepted : forall (P: Type) r
   exists f0 N s', forall f, (f0 <= f)%nat -> ParserMain.p_statement P f s = ParserBase.Ok (N, s').
 Proof. exact StmtTrip.statements_with_decls_accepted. Qed.
 Print Assumptions C01_generated_statements_with_declarations_accepted.
+
+(* ---- WHOLE TRANSLATION UNITS, on the top-level entry of the parser model (proofs/FuncTrip.v) ----
+   Every program that is a sequence of function definitions `T f ( ) { block items }` - T a non-empty run of simple type-specifier
+   keywords, the items declarations of objects and statements of the language above, nested to any depth - is ACCEPTED by
+   parse_tokens (CParser.parse after its resets) started in its initial state, whenever the lexer delivers the tokens of the program
+   (classified under the initial scope stack) and then the end of the input. *)
+From PV Require FuncTrip.
+Theorem C01_generated_programs_accepted : forall (P: Type) rp (p: list FuncTrip.fdef), Forall FuncTrip.fwf p ->
+  forall items le eof file, RoundTrip.Spell P le (FuncTrip.prog_toks rp p) -> StreamLib.UpR P [[]] items le -> List.length items = List.length le ->
+  exists f0 N s', forall fu, (f0 <= fu)%nat -> ParserMain.parse_tokens P fu (ParserMain.init_pstate P items eof file) = ParserBase.Ok (N, s').
+Proof.
+  intros P rp p Hp items le eof file HS HU Hl. destruct (FuncTrip.parse_of_generated_program P rp p Hp items le eof file HS HU Hl) as [f0 [N [s' [H _]]]].
+  exists f0, N, s'. exact H.
+Qed.
+Print Assumptions C01_generated_programs_accepted.
